@@ -50,14 +50,14 @@ def require_close(inv, what, a, b, rtol=1e-10, atol=0.0, scale=None, site=None):
         )
 
 
-def sparse_close(inv, what, A, B, rtol=1e-10, site=None):
+def sparse_close(inv, what, A, B, rtol=1e-10, site=None, atol=0.0):
     """Sparse matrices compared entrywise (dense only when small)."""
     if A.shape != B.shape:
         raise Violation(inv, f"{what}: shape {A.shape} vs reference {B.shape}", site)
     D = (A - B).tocsr() if hasattr(A, "tocsr") else A - B
     err = maxabs(D.data) if hasattr(D, "data") and not isinstance(D, np.ndarray) else maxabs(D)
     ref = maxabs(B.data) if hasattr(B, "data") and not isinstance(B, np.ndarray) else maxabs(B)
-    if not np.isfinite(err) or err > rtol * max(ref, 1e-300):
+    if not np.isfinite(err) or err > rtol * max(ref, 1e-300) + atol:
         raise Violation(inv, f"{what}: max|diff|={err:.3e}, max|ref|={ref:.3e}", site)
 
 
